@@ -132,6 +132,30 @@ pub fn regime(law: &str, p: &[f64]) -> String {
     }
 }
 
+/// a nearby valid parameter point (degenerate cells stay where they are)
+fn jitter(law: &str, p: &[f64], r: &mut Sm) -> Vec<f64> {
+    let f = |r: &mut Sm| (r.f64() * 0.6 - 0.3).exp();
+    let q: Vec<f64> = match law {
+        "Normal" => if p[1] == 0. { p.to_vec() } else { vec![p[0] + (r.f64() - 0.5) * p[1], p[1] * f(r)] },
+        "Gamma" | "Beta" | "Pareto" => vec![p[0] * f(r), p[1] * f(r)],
+        "ChiSquared" => vec![(p[0] + r.below(3) as f64).max(1.)],
+        "T" | "Exponential" | "Poisson" => vec![p[0] * f(r)],
+        "Gumbel" => vec![p[0] + (r.f64() - 0.5) * p[1], p[1] * f(r)],
+        "Uniform" => if p[0] == p[1] { p.to_vec() } else { let w = p[1] - p[0]; vec![p[0] + r.f64() * 0.2 * w, p[1] - r.f64() * 0.2 * w] },
+        "DiscreteUniform" => if p[0] == p[1] { p.to_vec() } else { vec![p[0] - r.below(3) as f64, p[1] + r.below(3) as f64] },
+        "Binomial" => {
+            if p[0] == 0. || p[1] == 0. || p[1] == 1. {
+                p.to_vec()
+            } else {
+                vec![(p[0] + r.below(5) as f64 - 2.).max(1.), (p[1] * f(r)).clamp(1e-4, 0.9999)]
+            }
+        }
+        "Bernoulli" => if p[0] == 0. || p[0] == 1. { p.to_vec() } else { vec![(p[0] * f(r)).clamp(1e-4, 0.9999)] },
+        _ => p.to_vec(),
+    };
+    if super::c18::valid(law, &q) { q } else { p.to_vec() }
+}
+
 fn is_discrete(law: &str) -> bool {
     matches!(law, "DiscreteUniform" | "Poisson" | "Binomial" | "Bernoulli")
 }
@@ -318,6 +342,11 @@ impl Prop for C03 {
             p.extend(gen_spd(&mut r, d, scale));
             params = p;
         }
+        // a quarter of the visits move off the grid point (same regime neighbourhood), so that a
+        // defect tied to a non-grid value is not systematically missed
+        if *law != "MVN" && visit % 4 == 3 {
+            params = jitter(law, &params, &mut r);
+        }
         let seeding = Seeding::gen(&mut r);
         let (n, script) = if faulty {
             let n = *r.pick(&[2_000usize, 5_000, 20_000]);
@@ -373,6 +402,9 @@ impl Prop for C03 {
         st.add("ops", case.n as u64);
         st.inc(&format!("seeding.{}", case.seeding.name()));
         st.inc(if faulty { "config.fault_injecting" } else { "config.fault_free" });
+        if law != "MVN" && !cells().iter().any(|(l, q)| *l == law && slice_bits_eq(q, &p).is_none()) {
+            st.inc("config.off_grid");
+        }
         st.inc(&format!("api.{}", match case.api { Api::Loop => "sample_loop", Api::SampleN => "sample_n", Api::SampleMatrix(_) => "sample_matrix" }));
         let reg = if law == "MVN" { format!("dim{}", p[0]) } else { regime(law, &p) };
         st.inc(&format!("regime.{}.{}", law, reg));
@@ -486,7 +518,7 @@ impl Prop for C03 {
                 v.push(k);
             }
         }
-        for k in ["api.sample_loop", "api.sample_n", "api.sample_matrix", "seeding.seed_clock", "seeding.seed_small", "seeding.seed_set", "config.fault_free", "config.fault_injecting", "config.reached_by_update", "fault.rng_zero", "fault.rng_max", "fault.rng_tiny", "fault.rng_half", "fault.rng_tail", "fault.rng_streak", "check.dkw", "check.mvn_projection", "dpc.Normal.1", "dpc.Normal.2", "dpc.Normal.3+", "dpc.Poisson.4+", "dpc.Binomial.4+", "dpc.Gamma.4+"] {
+        for k in ["api.sample_loop", "api.sample_n", "api.sample_matrix", "seeding.seed_clock", "seeding.seed_small", "seeding.seed_set", "config.fault_free", "config.fault_injecting", "config.reached_by_update", "config.off_grid", "fault.rng_zero", "fault.rng_max", "fault.rng_tiny", "fault.rng_half", "fault.rng_tail", "fault.rng_streak", "check.dkw", "check.mvn_projection", "dpc.Normal.1", "dpc.Normal.2", "dpc.Normal.3+", "dpc.Poisson.4+", "dpc.Binomial.4+", "dpc.Gamma.4+"] {
             v.push(k.to_string());
         }
         v
